@@ -42,7 +42,7 @@ Theorem compressor_huffman_section data a b h :
          exists t, lit_ok h data (huf_lit_header 2 (zlen data) (zlen payload)) payload t).
 Proof.
   intros Hbytes Ha Hb Hab Hlen.
-  destruct (build_from_data_meets_O2 data a b Hbytes Ha Hb Hab Hlen) as (W & codes & _ & Ecodes & LW & H11 & EW & Hpos & Hall).
+  destruct (build_from_data_meets_O2 data a b Hbytes Ha Hb Hab Hlen) as (W & codes & _ & Ecodes & LW & H11 & EW & Hpos & _ & Hall).
   exists codes. split; [exact Ecodes|]. cbv zeta. rewrite EW.
   remember (fold_right Z.max 0 data) as mx eqn:Emx.
   assert (Hrange : forall s, In s data -> 0 <= s <= mx).
